@@ -70,7 +70,7 @@ pub fn search(seed: u64, budget: &Budget, thorough: bool) -> (u64, Option<(Strin
         tried += 1;
         if let Err(e) = check_rs(&bits, k) { return (tried, Some((format!("k={} bits={}", k, show(&bits)), e))); }
         let tl = 1 + rng.below(60) as usize;
-        let t = rng.bytes(tl, b"ACGTN$");
+        let t = rng.bytes(tl, if rng.below(2) == 0 { &b"ACGTN$"[..] } else { &b"ACGT"[..] });
         if let Err(e) = check_wm(&t) { return (tried, Some((format!("text={}", hex(&t)), e))); }
     }
     (tried, None)
